@@ -355,7 +355,7 @@ fn stack_effect(op: &MOp) -> (usize, i32) {
 }
 
 /// A program of up to `max` ops with branches resolved to op boundaries (mostly).
-fn gen_program(ch: &mut Choices, cfg: &Cfg, depth: u32, max: usize) -> Vec<MOp> {
+pub fn gen_program(ch: &mut Choices, cfg: &Cfg, depth: u32, max: usize) -> Vec<MOp> {
     let n = if max <= 1 { 1 } else { 1 + ch.below(max) };
     let mut ops: Vec<MOp> = Vec::with_capacity(n);
     let mut branch_to: Vec<(usize, Option<usize>)> = Vec::new(); // (op index, target op index or None = raw)
